@@ -43,6 +43,7 @@ pub enum NodeKind { File, Dir, Symlink, Socket, Fifo, Char, Block, Other }
 /// One directory entry as `lstat` sees it (`kind`), with what `open`/`stat` reach through it (`inode`).
 pub struct Node {
     pub kind: NodeKind,
+    pub entry: int,            // identity of the directory entry itself (parent directory + name): two spellings of one entry share it
     pub inode: Inode,          // inode reached by following the entry (open/stat); for a dangling link: none (see `reach`)
     pub reach: bool,           // following the entry reaches an existing object (false: dangling link)
     pub tkind: NodeKind,       // kind of the object reached by following links
@@ -92,32 +93,33 @@ pub struct World {
     pub reported: nat,          // sum of StatusUpdate::Copied accepted
     pub errno: int,             // errno of the last failed libc call
     pub eintr_left: nat,        // A-eintr: how many more times a read may still be interrupted (finite)
+    pub eexist: nat,            // node-creating calls that failed because the name was already taken (EEXIST)
 }
 
 // ---------------------------------------------------------------- frames
 /// nothing but `files`, `trace`, `faults` may differ
 pub open spec fn fr_files(a: World, b: World) -> bool {
-    a.errno == b.errno && a.eintr_left == b.eintr_left && a.cursor == b.cursor && a.paths == b.paths && a.tolerated == b.tolerated
+    a.eexist == b.eexist && a.errno == b.errno && a.eintr_left == b.eintr_left && a.cursor == b.cursor && a.paths == b.paths && a.tolerated == b.tolerated
     && a.errors_sent == b.errors_sent && a.announced == b.announced && a.reported == b.reported
 }
 /// nothing but `files`, `cursor`, `trace`, `faults`, `errno` may differ (data path)
 pub open spec fn fr_data(a: World, b: World) -> bool {
-    a.errno == b.errno && a.paths == b.paths && a.tolerated == b.tolerated
+    a.eexist == b.eexist && a.errno == b.errno && a.paths == b.paths && a.tolerated == b.tolerated
     && a.errors_sent == b.errors_sent && a.announced == b.announced && a.reported == b.reported
 }
 /// nothing but `faults` (and errno) may differ
 pub open spec fn fr_ro(a: World, b: World) -> bool {
-    a.errno == b.errno && a.eintr_left == b.eintr_left && a.files == b.files && a.cursor == b.cursor && a.paths == b.paths && a.trace == b.trace && a.tolerated == b.tolerated
+    a.eexist == b.eexist && a.errno == b.errno && a.eintr_left == b.eintr_left && a.files == b.files && a.cursor == b.cursor && a.paths == b.paths && a.trace == b.trace && a.tolerated == b.tolerated
     && a.errors_sent == b.errors_sent && a.announced == b.announced && a.reported == b.reported
 }
 /// like fr_data but errno may change too (libc calls)
 pub open spec fn fr_libc(a: World, b: World) -> bool {
-    a.paths == b.paths && a.tolerated == b.tolerated && a.eintr_left == b.eintr_left
+    a.eexist == b.eexist && a.paths == b.paths && a.tolerated == b.tolerated && a.eintr_left == b.eintr_left
     && a.errors_sent == b.errors_sent && a.announced == b.announced && a.reported == b.reported
 }
 /// the updater counters and the channel events only
 pub open spec fn fr_chan(a: World, b: World) -> bool {
-    a.errno == b.errno && a.eintr_left == b.eintr_left && a.files == b.files && a.cursor == b.cursor && a.paths == b.paths && a.tolerated == b.tolerated && a.faults == b.faults
+    a.eexist == b.eexist && a.errno == b.errno && a.eintr_left == b.eintr_left && a.files == b.files && a.cursor == b.cursor && a.paths == b.paths && a.tolerated == b.tolerated && a.faults == b.faults
 }
 /// every inode other than `i` is untouched, and no inode disappears or appears
 pub open spec fn others_same(a: Map<Inode, FileState>, b: Map<Inode, FileState>, i: Inode) -> bool {
